@@ -1,4 +1,289 @@
+//! C43: replays TLC-generated action sequences (MC_SecureConfig) on real
+//! directories with the real `SecureConfig::load_config` and logs, after
+//! every action, the projected state of the directories and the result of the
+//! load.  Trace_SecureConfig re-executes the actions on the model and judges.
+use std::fs;
+use std::path::Path;
+use std::path::PathBuf;
+
+use jj_lib::secure_config::SecureConfig;
+use jj_lib::secure_config::metadata_path;
+use jj_lib::secure_config::read_metadata;
 use jjconf::util::Opts;
-pub fn run(_opts: &Opts) -> Result<(), String> {
-    Err("not built yet".into())
+use jjconf::util::Out;
+use jjconf::util::catch;
+use jjconf::util::read_ndjson;
+use rand::SeedableRng as _;
+use rand_chacha::ChaCha20Rng;
+use serde_json::Map;
+use serde_json::Value;
+use serde_json::json;
+
+use crate::abs::arr;
+use crate::abs::field;
+use crate::abs::st;
+
+const IX_HEX: &str = "abcdefabcdefabcdef12";
+/// ill-formed config-id contents; "dotdot" has the right length (20) and stays
+/// inside the sandbox when joined to the (deeply nested) config root
+const BAD_IDS: &[(&str, &str)] = &[
+    ("dotdot", "../../../../../../xx"),
+    ("short", "abcdef"),
+    ("nonhex", "zzzzzzzzzzzzzzzzzzzz"),
+    ("newline", "0123456789abcdef0123\n"),
+];
+const CONTENTS: &[(&str, &str)] = &[("A", "a = 1\n"), ("B", "b = 2\n")];
+
+struct World {
+    root: PathBuf,
+    repos_dir: PathBuf,
+    cfg_root: PathBuf,
+    repo_names: Vec<String>,
+    id_names: Vec<String>,
+    /// (abstract id, real hex id), in order of first appearance
+    bound: Vec<(String, String)>,
+    generated: usize,
+}
+
+fn is_hex_id(s: &str) -> bool {
+    s.len() == 20 && s.chars().all(|c| c.is_ascii_hexdigit())
+}
+
+impl World {
+    fn new(root: PathBuf, repo_names: Vec<String>, id_names: Vec<String>) -> Result<Self, String> {
+        let repos_dir = root.join("repos");
+        let cfg_root = root.join("a/b/c/d/e/f/cfg");
+        fs::create_dir_all(&repos_dir).map_err(|e| e.to_string())?;
+        fs::create_dir_all(&cfg_root).map_err(|e| e.to_string())?;
+        Ok(Self { root, repos_dir, cfg_root, repo_names, id_names, bound: vec![("ix".into(), IX_HEX.into())], generated: 0 })
+    }
+    fn repo(&self, r: &str) -> PathBuf {
+        self.repos_dir.join(r)
+    }
+    fn hex_of(&self, abs: &str) -> Option<&str> {
+        self.bound.iter().find(|(a, _)| a == abs).map(|(_, h)| h.as_str())
+    }
+    /// abstract name of a real id; a hex id seen for the first time is the next generated one
+    fn abs_of(&mut self, hex: &str) -> String {
+        if let Some((a, _)) = self.bound.iter().find(|(_, h)| h == hex) {
+            return a.clone();
+        }
+        self.generated += 1;
+        let a = format!("i{}", self.generated);
+        self.bound.push((a.clone(), hex.to_owned()));
+        a
+    }
+    fn repo_name_of(&self, p: &Path) -> String {
+        match p.strip_prefix(&self.repos_dir) {
+            Ok(rest) if rest.components().count() == 1 => rest.to_string_lossy().into_owned(),
+            _ => format!("?{}", p.display()),
+        }
+    }
+
+    fn classify_idf(&mut self, content: &str) -> String {
+        if let Some((name, _)) = BAD_IDS.iter().find(|(_, c)| *c == content) {
+            return name.to_string();
+        }
+        if is_hex_id(content) {
+            return self.abs_of(content);
+        }
+        format!("?{}", content.escape_debug())
+    }
+
+    fn project(&mut self, res: Value) -> Value {
+        // bind new ids in a deterministic order: config dirs first (sorted)
+        let mut dirs: Vec<String> = fs::read_dir(&self.cfg_root)
+            .map(|it| it.filter_map(|e| e.ok()).map(|e| e.file_name().to_string_lossy().into_owned()).collect())
+            .unwrap_or_default();
+        dirs.sort();
+        let mut escaped = vec![];
+        for d in &dirs {
+            if is_hex_id(d) {
+                self.abs_of(d);
+            } else {
+                escaped.push(format!("cfg/{d}"));
+            }
+        }
+        let mut repos = Map::new();
+        for r in self.repo_names.clone() {
+            let p = self.repo(&r);
+            let v = match fs::symlink_metadata(&p) {
+                Ok(m) if m.file_type().is_symlink() => {
+                    let target = fs::read_link(&p).map(|t| self.repo_name_of(&t)).unwrap_or_else(|e| format!("?{e}"));
+                    json!({"exists": true, "link": target, "idf": "none"})
+                }
+                Ok(m) if m.is_dir() => {
+                    let idf = match fs::read_to_string(p.join("config-id")) {
+                        Ok(c) => self.classify_idf(&c),
+                        Err(e) if e.kind() == std::io::ErrorKind::NotFound => "none".to_string(),
+                        Err(e) => format!("?{e}"),
+                    };
+                    for e in fs::read_dir(&p).into_iter().flatten().flatten() {
+                        let n = e.file_name().to_string_lossy().into_owned();
+                        if n != "config-id" {
+                            escaped.push(format!("repos/{r}/{n}"));
+                        }
+                    }
+                    json!({"exists": true, "link": "", "idf": idf})
+                }
+                _ => json!({"exists": false, "link": "", "idf": "none"}),
+            };
+            repos.insert(r, v);
+        }
+        let mut cfg = Map::new();
+        for i in self.id_names.clone() {
+            let none = json!({"exists": false, "meta": "", "content": "nofile"});
+            let v = match self.hex_of(&i).map(|h| self.cfg_root.join(h)) {
+                Some(dir) if dir.is_dir() => match read_metadata(&dir) {
+                    Ok(md) => {
+                        let meta = match metadata_path(&md) {
+                            Ok(Some(p)) => self.repo_name_of(p),
+                            Ok(None) => "".to_string(),
+                            Err(e) => format!("?{e}"),
+                        };
+                        let content = match fs::read_to_string(dir.join("config.toml")) {
+                            Ok(c) => CONTENTS.iter().find(|(_, t)| *t == c).map(|(n, _)| n.to_string()).unwrap_or_else(|| format!("?{}", c.escape_debug())),
+                            Err(e) if e.kind() == std::io::ErrorKind::NotFound => "nofile".to_string(),
+                            Err(e) => format!("?{e}"),
+                        };
+                        for e in fs::read_dir(&dir).into_iter().flatten().flatten() {
+                            let n = e.file_name().to_string_lossy().into_owned();
+                            if n != "config.toml" && n != "metadata.binpb" {
+                                escaped.push(format!("cfg/{i}/{n}"));
+                            }
+                        }
+                        json!({"exists": true, "meta": meta, "content": content})
+                    }
+                    Err(_) => none,
+                },
+                _ => none,
+            };
+            cfg.insert(i, v);
+        }
+        // nothing may appear anywhere else in the sandbox
+        let mut stack = vec![self.root.clone()];
+        while let Some(d) = stack.pop() {
+            for e in fs::read_dir(&d).into_iter().flatten().flatten() {
+                let p = e.path();
+                if p == self.repos_dir || p == self.cfg_root {
+                    continue;
+                }
+                if self.cfg_root.starts_with(&p) {
+                    stack.push(p);
+                } else {
+                    escaped.push(p.strip_prefix(&self.root).unwrap_or(&p).display().to_string());
+                }
+            }
+        }
+        for (a, _) in &self.bound {
+            if !self.id_names.contains(a) {
+                escaped.push(format!("unexpected-id:{a}"));
+            }
+        }
+        escaped.sort();
+        json!({"repos": repos, "cfg": cfg, "res": res, "escaped": escaped})
+    }
+}
+
+fn copy_dir(src: &Path, dst: &Path) -> std::io::Result<()> {
+    fs::create_dir(dst)?;
+    for e in fs::read_dir(src)? {
+        let e = e?;
+        let to = dst.join(e.file_name());
+        if e.file_type()?.is_dir() {
+            copy_dir(&e.path(), &to)?;
+        } else {
+            fs::copy(e.path(), to)?;
+        }
+    }
+    Ok(())
+}
+
+fn step(w: &mut World, rng: &mut ChaCha20Rng, s: &Value) -> Result<Value, String> {
+    let a = st(field(s, "a")?)?;
+    let r = st(field(s, "r")?)?;
+    let d = st(field(s, "d")?)?;
+    let x = st(field(s, "s")?)?;
+    let io = |e: std::io::Error| format!("{a} {r} {d}: {e}");
+    let quiet = json!({"ok": true, "id": ""});
+    match a {
+        "Create" => fs::create_dir(w.repo(r)).map_err(io)?,
+        "Copy" => copy_dir(&w.repo(r), &w.repo(d)).map_err(io)?,
+        "Move" => fs::rename(w.repo(r), w.repo(d)).map_err(io)?,
+        "Delete" => {
+            let p = w.repo(r);
+            if fs::symlink_metadata(&p).map_err(io)?.file_type().is_symlink() {
+                fs::remove_file(&p).map_err(io)?
+            } else {
+                fs::remove_dir_all(&p).map_err(io)?
+            }
+        }
+        "Alias" => std::os::unix::fs::symlink(w.repo(r), w.repo(d)).map_err(io)?,
+        "WriteId" => {
+            let content = match BAD_IDS.iter().find(|(n, _)| *n == x) {
+                Some((_, c)) => c.to_string(),
+                None => w.hex_of(x).ok_or_else(|| format!("WriteId: id {x} was never generated"))?.to_owned(),
+            };
+            fs::write(w.repo(r).join("config-id"), content).map_err(io)?
+        }
+        "Edit" => {
+            let hex = w.hex_of(d).ok_or_else(|| format!("Edit: id {d} was never generated"))?.to_owned();
+            let text = CONTENTS.iter().find(|(n, _)| *n == x).ok_or("Edit: unknown content")?.1;
+            fs::write(w.cfg_root.join(hex).join("config.toml"), text).map_err(io)?
+        }
+        "Load" => {
+            // a new SecureConfig per load: a new jj process (no cache)
+            let sc = SecureConfig::new_repo(w.repo(r));
+            let root = w.cfg_root.clone();
+            let res = catch(std::panic::AssertUnwindSafe(|| sc.load_config(rng, &root)));
+            let res = match res {
+                Ok(Ok(loaded)) => match loaded.config_file {
+                    Some(p) => {
+                        // must be exactly <root>/<20 hex>/config.toml
+                        let id = match p.strip_prefix(&w.cfg_root) {
+                            Ok(rest) => {
+                                let comps: Vec<String> = rest.components().map(|c| c.as_os_str().to_string_lossy().into_owned()).collect();
+                                if comps.len() == 2 && comps[1] == "config.toml" && is_hex_id(&comps[0]) {
+                                    w.abs_of(&comps[0])
+                                } else {
+                                    format!("BADPATH:{}", p.display())
+                                }
+                            }
+                            Err(_) => format!("BADPATH:{}", p.display()),
+                        };
+                        json!({"ok": true, "id": id})
+                    }
+                    None => json!({"ok": true, "id": "NOPATH"}),
+                },
+                Ok(Err(_)) => json!({"ok": false, "id": ""}),
+                Err(p) => json!({"ok": false, "id": format!("PANIC:{p}")}),
+            };
+            return Ok(res);
+        }
+        other => return Err(format!("unknown action {other}")),
+    }
+    Ok(quiet)
+}
+
+pub fn run(opts: &Opts) -> Result<(), String> {
+    let behaviours = read_ndjson(&opts.str("in", "behaviours.ndjson"))?;
+    let mut out = Out::create(&opts.str("out", "trace.ndjson"))?;
+    let seed = opts.u64("seed", 0);
+    let repo_names: Vec<String> = opts.str("repos", "r1,r2,r3").split(',').map(str::to_owned).collect();
+    let id_names: Vec<String> = opts.str("ids", "i1,i2,i3,i4,i5,ix").split(',').map(str::to_owned).collect();
+    let tmp = tempfile::Builder::new().prefix("vf-sec-").tempdir().map_err(|e| e.to_string())?;
+    for (bi, b) in behaviours.iter().enumerate() {
+        let root = tmp.path().join(format!("b{bi}"));
+        let mut w = World::new(root.clone(), repo_names.clone(), id_names.clone())?;
+        let mut rng = ChaCha20Rng::seed_from_u64(seed.wrapping_mul(1_000_003).wrapping_add(bi as u64));
+        out.emit(&json!({"op": "reset", "b": bi}));
+        for s in arr(field(b, "steps")?)? {
+            let res = step(&mut w, &mut rng, s).map_err(|e| format!("behaviour {bi}: {e}"))?;
+            let obs = w.project(res);
+            out.emit(&json!({"op": "step", "b": bi, "a": s["a"], "r": s["r"], "d": s["d"], "s": s["s"], "obs": obs}));
+        }
+        let _ = fs::remove_dir_all(&root);
+    }
+    out.finish();
+    Ok(())
 }
